@@ -601,6 +601,9 @@ Section Model.
   Definition no_growth (g : bool) (bound : nat) (v : svec Q) : bool :=
     negb g || forallb (fun p => fst p <? bound) v.
 
+  Definition is_auto (md : smode) : bool := match md with Auto => true | _ => false end.
+  Definition no_uflow (v : svec Q) : bool := forallb (fun p => negb (qnz (snd p)) || dnz (rnd RConv (snd p))) v.
+
   Definition valid_op (s : state) (o : op) : bool :=
     match o with
     | OR ro =>
@@ -627,13 +630,19 @@ Section Model.
         let ps := qprims (eps s) m n q qo in
         prims_ok (qap_of qo) ps q &&
         match qo with
-        (* addRowRational / addColRational(const mpq_t pointers): an explicit zero among the values is stored in the
+        (* addRow(s)Rational / addCol(s)Rational(const mpq_t pointers): an explicit zero among the values is stored in the
            row (column) vector but not in the column (row) file; the two files of the rational LP then disagree, a
            later changeElement duplicates the entry.  Reported as a defect; such calls are outside the modelled domain *)
         | QAddRow true (_, _, v) => forallb (fun p => qnz (snd p)) v
         | QAddCol true (_, _, _, v) => forallb (fun p => qnz (snd p)) v
-        | QAddRows g rs => forallb (fun r => no_growth g n (snd r)) rs
-        | QAddCols g cs => forallb (fun c => no_growth g m (snd c)) cs
+        (* addRowsRational / addColsRational(const LPRowSetRational& / LPColSetRational&) in SYNCMODE_AUTO: a nonzero
+           coefficient whose double image is 0.0 stays in the converted set as an explicit zero; doAddRows / doAddCols
+           count it when they extend the column / row file but never write it: the real LP is left with an
+           uninitialised entry.  Reported as a defect; such calls are outside the modelled domain *)
+        | QAddRows g rs => forallb (fun r => no_growth g n (snd r) && (g || negb (is_auto md) || no_uflow (snd r))
+                                             && (negb g || forallb (fun p => qnz (snd p)) (snd r))) rs
+        | QAddCols g cs => forallb (fun c => no_growth g m (snd c) && (g || negb (is_auto md) || no_uflow (snd c))
+                                             && (negb g || forallb (fun p => qnz (snd p)) (snd c))) cs
         | GRhsV xs => length xs <=? m
         | QRemRowsIdx idx => forallb (fun i => i <? m) idx
         | QRemColsIdx idx => forallb (fun j => j <? n) idx
